@@ -306,6 +306,9 @@ func RunCheck(o CheckOpts) int {
 			continue
 		}
 		nviol++
+		if nviol > maxReported {
+			continue // counted; the first maxReported classes are reported with replay files
+		}
 		path := writeReplay(v)
 		lines = append(lines, fmt.Sprintf("VIOLATION property=%s replay=%s", o.Prop, path))
 		fmt.Fprintf(os.Stderr, "  class=%s  %s\n", v.Class(), v.What)
@@ -326,6 +329,9 @@ func RunCheck(o CheckOpts) int {
 
 	for _, l := range lines {
 		fmt.Println(l)
+	}
+	if nviol > maxReported {
+		fmt.Printf("(%d further violation classes not listed; %d in all)\n", nviol-maxReported, nviol)
 	}
 	fmt.Printf("%s %s seed=%d: evaluations=%d/%d distinct=%d violations=%d known=%d inconclusive=%d wall=%.1fs\n",
 		o.Prop, o.Tier, o.Seed, merged.Evaluations, planned, merged.DistinctCount(), nviol, len(known), incon, time.Since(start).Seconds())
@@ -353,6 +359,10 @@ func RunCheck(o CheckOpts) int {
 	}
 	return 0
 }
+
+// maxReported bounds the number of violation classes that get a VIOLATION line and a replay file in one run (a change
+// that breaks a property everywhere can produce hundreds of classes; all are counted in the evidence).
+const maxReported = 40
 
 func matchFinding(fs []Finding, v *Violation) *Finding {
 	for i := range fs {
